@@ -52,7 +52,7 @@ def run(mdir, props):
     try:
         for p in props:
             t0 = time.time()
-            rc, out = sh(f'python3 tools/check.py {p} --tier quick', cwd=VERIF)
+            rc, out = sh(f'timeout 900 python3 tools/check.py {p} --tier quick', cwd=VERIF)
             vio = [l for l in out.split('\n') if l.startswith('VIOLATION')]
             det[p] = dict(exit=rc, violation=vio[0] if vio else None, wall_s=round(time.time() - t0, 1),
                           first_problem=next((l.strip() for l in out.split('\n') if l.strip().startswith('problem:')), None))
